@@ -32,7 +32,10 @@ CONFIG = {
     "C14": dict(level="exploration", batches=[("hist/asan", "asan", "yaepsim", "hist", 0, 6000, 120000),
                                                ("hist/plain", "plain", "yaepsim", "hist", 0, 16000, 500000),
                                                # perturb plans are histories too (one task, config flips, long inputs): memory safety
-                                               ("perturb/asan", "asan", "yaepsim", "perturb", 0, 1500, 40000)]),
+                                               ("perturb/asan", "asan", "yaepsim", "perturb", 0, 1500, 40000),
+                                               # one ANSI C grammar object parsing many different translation units
+                                               ("ansichist/plain", "plain", "yaepsim", "ansichist", 0, 480, 12000),
+                                               ("ansichist/asan", "asan", "yaepsim", "ansichist", 0, 96, 3000)]),
     "C15": dict(level="exploration", batches=[("hist/asan", "asan", "yaepsim", "hist", 1, 6000, 120000),
                                                ("hist/plain", "plain", "yaepsim", "hist", 1, 16000, 500000),
                                                ("oom/plain", "plain", "yaepsim", "oom", 1, 6000, 120000)]),
@@ -263,7 +266,7 @@ def run_batch(batch, pool):
     a = batch.seed0
     end = batch.seed0 + batch.runs
     first = True
-    chunk = 1 if batch.mode == "ansic" else CHUNK
+    chunk = 1 if batch.mode == "ansic" else 24 if batch.mode == "ansichist" else CHUNK
     while a < end:
         b = min(end, a + chunk)
         futs.append(pool.submit(run_chunk, batch.exe, batch.mode, batch.focus, a, b, True))
